@@ -10,15 +10,16 @@ produced; what is proved here, for all inputs, is
   * the offset checks (`offset_checked`, `jump_back_checked`),
   * the register allocator invariant and limits (`frame_inv`, `frame_limits`,
     `frame_new_wrap_witness`, `frame_new_guarded`).
-  * `compile_wf_partial`: what is proved of DESIGN's `compile_wf` for the C01 compiler core
-    (`Model/Compile.lean`).
-Helper lemmas: Lemmas/C05Codec.lean, C05Frame.lean, C05WF.lean, C05Sweep.lean, C05CompileWF.lean.
+  * `compile_wf`: the C01 compiler core (`Model/Compile.lean`) emits code that `wfChunk` accepts.
+Helper lemmas: Lemmas/C05Codec.lean, C05Frame.lean, C05WF.lean, C05Sweep.lean, C05CompileWF.lean, C05CWBytes1-5.lean.
 -/
 import KotoVerif.Lemmas.C05Codec
 import KotoVerif.Lemmas.C05Frame
 import KotoVerif.Lemmas.C05WF
 import KotoVerif.Lemmas.C05Sweep
 import KotoVerif.Lemmas.C05CompileWF
+import KotoVerif.Lemmas.C05CWBytes5
+import KotoVerif.Lemmas.C05CWFits
 
 namespace KotoVerif.C05
 open KotoVerif.Gen KotoVerif.Bytecode KotoVerif.Frame
@@ -424,17 +425,52 @@ conditional core and is tied to the real compiler instruction for instruction (h
 `Return result`). -/
 
 open KotoVerif.Compile in
-/-- **compile_wf_partial**: for *every* expression of the core, compiled as a main block with `Any`:
-every register operand of the emitted stream and the returned register are below the
-`registers_used()` that goes into `NewFrame` (so `wfChunk`'s register check holds), every jump lands on
-the boundary of a later instruction of the stream or on its end, where `Return` follows (its jump
-check), the frame has room for `self` and the locals, and there is no builder / try instruction to
-balance. Not proved: that the executable `wfChunk` evaluates to `true` on `encodeMain …` for all
-expressions — the byte-level assembly (the sweep of the encoded bytes returns this listing; byte
-offsets computed from instruction skips hit the listed pcs; the depth inference `annotate` marks every
-instruction reachable) is only checked on instances, see `compile_wf_instances`, and by the
-translation validation of real chunks. -/
-theorem compile_wf_partial (e : Compile.Expr) (lc : Nat) (code : Compile.Code) (out : Compile.Out)
+/-- **compile_wf** (DESIGN §6 C05): for *every* expression of the compiler core, compiled as a main
+block with `Any`, the emitted code — `NewFrame registers_used`, the flattened stream with its
+instruction skips turned into byte offsets, `Return result`, encoded with `Model/Encode.lean` — is
+accepted by the verifier `wfChunk`: the sweep of the bytes is exactly the listing of the emitted
+instructions (codec round trip), every jump offset hits the listed pc of its target (encoded sizes are
+additive over the structured code), every instruction is reachable and every successor is an
+instruction of the unit (by induction over `Code`), all registers are below `registers_used`, the
+integer constants are in the pool, and there is nothing to balance. The side conditions are the
+limits the real compiler reports as errors: at most 254 locals (`FunctionPropertyLimit` otherwise; that
+`registers_used ≤ 255` then holds for whatever was compiled is proved, `compile_fits`: `push_register`
+refuses register 255) and code that fits the u16 jump offsets (`JumpOffsetIsTooLarge` otherwise); `cidx` is any assignment of pool indices to the integer literals.
+With `wf_sound_jumps/regs/balance` this gives: no execution of such a chunk meets an internal fault. -/
+theorem compile_wf (e : Compile.Expr) (lc : Nat) (code : Compile.Code) (out : Compile.Out)
+    (F' : Compile.Frame) (cidx : Int → Nat) (consts : List CKind)
+    (h : Compile.compile e .any { tb := 1 + lc } = some (code, out, F'))
+    (hlc : lc ≤ 254) (hsz : sizeOf cidx (flatten code) ≤ 65535)
+    (hc : ∀ n, cidx n < 4294967296 ∧ consts[cidx n]? = some .int) :
+    ∃ r, out.reg = some r ∧ wfChunk (encodeMain cidx F'.registersUsed (flatten code) r) consts = true := by
+  obtain ⟨hregs, ⟨r, hr, hrlt⟩, _, _⟩ := compile_wf_flat e lc code out F' h
+  have hru : F'.registersUsed ≤ 255 :=
+    compile_fits e .any _ code out F' h (by simp only [U]; omega)
+  exact ⟨r, hr, wfChunk_encodeMain cidx consts _ r code hru hrlt hregs hsz hc⟩
+
+open KotoVerif.Compile in
+/-- the same for the packaged pipeline `compileMain = compile → flatten → encodeMain` -/
+theorem compile_wf_main (e : Compile.Expr) (lc : Nat) (cidx : Int → Nat) (consts : List CKind) (bytes : List Nat)
+    (h : compileMain cidx e lc = some bytes)
+    (hlc : lc ≤ 254)
+    (hlim : ∀ code out F', Compile.compile e .any { tb := 1 + lc } = some (code, out, F') →
+      sizeOf cidx (flatten code) ≤ 65535)
+    (hc : ∀ n, cidx n < 4294967296 ∧ consts[cidx n]? = some .int) :
+    wfChunk bytes consts = true := by
+  unfold compileMain at h
+  cases hcmp : Compile.compile e .any { tb := 1 + lc } with
+  | none => simp [hcmp] at h
+  | some res =>
+    obtain ⟨code, out, F'⟩ := res
+    have hsz := hlim code out F' hcmp
+    obtain ⟨r, hr, hwf⟩ := compile_wf e lc code out F' cidx consts hcmp hlc hsz hc
+    simp only [hcmp, hr] at h
+    cases h
+    exact hwf
+
+open KotoVerif.Compile in
+/-- the flat-level facts behind it (registers, jump targets, frame size), for every expression -/
+theorem compile_wf_flat_level (e : Compile.Expr) (lc : Nat) (code : Compile.Code) (out : Compile.Out)
     (F' : Compile.Frame) (h : Compile.compile e .any { tb := 1 + lc } = some (code, out, F')) :
     (∀ f ∈ flatten code, ∀ r ∈ flatRegs f, r < F'.registersUsed)
     ∧ (∃ r, out.reg = some r ∧ r < F'.registersUsed)
@@ -453,7 +489,7 @@ theorem compile_regs_bound (e : Compile.Expr) (m : Compile.Mode) (F : Compile.Fr
   exact ⟨hm.tb, hm.tmax, ht', flatten_regs code _ hcb⟩
 
 open KotoVerif.Compile in
-/-- **compile_wf_instances**: on concrete programs of the core (assignment of a pooled integer,
+/-- **compile_wf_instances** (non-vacuity of `compile_wf`, evaluated in the kernel): on concrete programs of the core (assignment of a pooled integer,
 `if`/`else` with a comparison, `and`, negation; compound assignment, a chained comparison, `or`,
 `if` without `else`) the whole pipeline `compile → flatten → encodeMain → wfChunk` evaluates to
 `true` in the kernel. `x0 = 300; if x0 < 5 then x0 and true else -x0` encodes to the bytes the real
